@@ -116,6 +116,17 @@ def run(ctx):
             )
             continue
         ia, app = appends[0]
+        if app.data.get("method") == "insert":
+            # `insert(<computed position>, x)`: a sorted insertion.  Whether the position found keeps the list in
+            # time order and the tests around it exclude every overlap is an argument about the search loop,
+            # not about the shape of the code; a constant position is not such an argument
+            call_ = app.node if isinstance(app.node, ast.Call) else next((x for x in ast.walk(app.node) if isinstance(x, ast.Call) and isinstance(x.func, ast.Attribute) and x.func.attr == "insert"), None)
+            pos_ = call_.args[0] if call_ is not None and call_.args else None
+            if pos_ is not None and not isinstance(pos_, ast.Constant) and not (isinstance(pos_, ast.UnaryOp) and isinstance(pos_.operand, ast.Constant)):
+                raise AnalysisError(
+                    f"{app.loc}: the scheduled operation is inserted at a computed position (`{ast.unparse(call_)[:70]}`); whether that "
+                    "position keeps the machine list in time order without overlap is not decided by this analysis"
+                )
         if app.data.get("method") != "append":
             bad = True
             chk.violation("R01.a", app.fi, app.node, "the scheduled operation is not appended at the end of its machine list: the list is no longer in time order", loc=app.loc)
